@@ -359,6 +359,12 @@ def joblib_plan_st(draw, tier, ctx):
     h.partial_fit()
     h.predict_expectations(m=2)
     big_query(draw, h)
+    minibatch = bool(cfg["np"]) and cfg["np"][0] == "Clusters" and cfg["np"][1].get("is_minibatch")
+    if draw(st.integers(0, 3)) == 0 or (minibatch and draw(st.integers(0, 3)) > 0):
+        # a history of well over a thousand distinct rows (the first fit repeated with a drift): estimators that size
+        # their work by the number of rows or workers (mini-batch k-means) must not depend on n_jobs
+        f = h.ops[0]
+        h.ops[0] = ["fit_tiled", f[1], f[2], f[3], draw(st.sampled_from([600, 800])), 0.003]
     return {"config": cfg, "ops": h.ops}
 
 
@@ -394,7 +400,7 @@ SUBCHECKS = [
     SubCheck("locality", locality_strategy, evaluate_locality, quick=2500, thorough=30000),
     SubCheck("schedule", schedule_strategy, evaluate_schedule, quick=3000, thorough=40000),
     SubCheck("schedule_all_orders", None, evaluate_schedule, 0, 0, enumerate_fn=schedule_enum),
-    SubCheck("joblib", joblib_strategy, evaluate_joblib, quick=64, thorough=400, workers=8, quick_s=70,
+    SubCheck("joblib", joblib_strategy, evaluate_joblib, quick=128, thorough=640, workers=16, quick_s=80,
              shrink=False),
 ]
 KNOWN = {}
